@@ -339,7 +339,7 @@ Expansion model_expand(const std::string &fmt, long dsmax, long total_max, CallC
 static bool file_sink_usable(const World &w, const std::string &path) {
     if (path.empty()) return false;
     auto it = w.files.find(path);
-    if (it != w.files.end()) { if (it->second.open_errno || it->second.kind == 1) return false; if (it->second.kind == 3 && !w.has_ctty) return false; return w.disk_free != 0 || it->second.kind != 0; }
+    if (it != w.files.end()) { if (it->second.open_errno || it->second.kind == 1) return false; if (it->second.kind == 3 && !w.has_ctty) return false; return w.disk_free != 0 || it->second.kind != 0; }   // kind 4 (FIFO with a reader): usable
     size_t k = path.rfind('/'); std::string dir = k == std::string::npos ? "." : k == 0 ? "/" : path.substr(0, k);
     auto d = w.files.find(dir);
     if (d == w.files.end() || d->second.kind != 1 || d->second.open_errno) return false;
